@@ -12,6 +12,7 @@ import (
 	"runtime"
 	"sort"
 	"strings"
+	"sync"
 	"time"
 )
 
@@ -211,8 +212,38 @@ func Main(id, tier string, seed int64, budget time.Duration, root, out string) i
 		}
 	}
 	c.Set("mismatches_not_reproducible_in_isolation", len(unrepro))
-	if p.Word32 && runtime.GOARCH != "386" {
-		reported += word32Pass(c, p, id, root, out)
+	if Variant() == "" {
+		// the variant passes run side by side (each is a process of its own)
+		var vwg sync.WaitGroup
+		var vmu sync.Mutex
+		addReported := func(n int) { vmu.Lock(); reported += n; vmu.Unlock() }
+		if p.Word32 && runtime.GOARCH != "386" {
+			vwg.Add(1)
+			go func() {
+				defer vwg.Done()
+				addReported(variantPass(c, id, root, out, variantSpec{
+					key: "goarch_386", variant: "goarch-386", binEnv: "VERIF_386_BIN", errEnv: "VERIF_386_ERR",
+					what:  "quick tier of this check re-run as a GOARCH=386 binary (32-bit int, uint, uintptr)",
+					label: "on GOARCH=386 (32-bit int/uint)",
+					mark:  "goarch", markVal: "386", suffix: "386",
+					goTest: "GOARCH=386 CGO_ENABLED=0 ",
+				}))
+			}()
+		}
+		if p.DebugTag {
+			vwg.Add(1)
+			go func() {
+				defer vwg.Done()
+				addReported(variantPass(c, id, root, out, variantSpec{
+					key: "tags_debug", variant: "tags-debug", binEnv: "VERIF_TAGDEBUG_BIN", errEnv: "VERIF_TAGDEBUG_ERR",
+					what:  "quick tier of this check re-run as a binary built with -tags debug (the library's openacid/must contracts compiled in)",
+					label: "in the -tags debug build",
+					mark:  "build_tags", markVal: "debug", suffix: "debug",
+					goTestTags: "-tags debug ",
+				}))
+			}()
+		}
+		vwg.Wait()
 	}
 	if err := c.Finish(p, evPath, reported, knownHit); err != nil {
 		fmt.Fprintf(os.Stderr, "vcheck: cannot write evidence: %v\n", err)
@@ -229,36 +260,50 @@ func Main(id, tier string, seed int64, budget time.Duration, root, out string) i
 	return 0
 }
 
-// word32Pass runs the quick tier of the same check as a 32-bit (GOARCH=386)
-// binary built by check.sh from the same sources, and folds what it covered and
-// what it found into this run. It returns the number of violations reported.
+// Variant names the build configuration this process was started for by a variant pass of its
+// parent ("" in an ordinary run, "goarch-386", "tags-debug"): a check may reduce its space for a
+// configuration that is much slower.
+func Variant() string { return os.Getenv("VERIF_VARIANT") }
+
+var printMu sync.Mutex
+
+type variantSpec struct {
+	key, variant, binEnv, errEnv string
+	what, label                  string
+	mark, markVal, suffix        string
+	goTest, goTestTags           string
+}
+
+// variantPass runs the quick tier of the same check as a binary built by check.sh from the
+// same sources in ANOTHER BUILD CONFIGURATION (32-bit GOARCH=386; -tags debug), and folds what
+// it covered and what it found into this run. It returns the number of violations reported.
 // When the binary is not available the pass is skipped and the evidence says so.
-func word32Pass(c *Ctx, p *Property, id, root, out string) int {
-	bin := os.Getenv("VERIF_386_BIN")
+func variantPass(c *Ctx, id, root, out string, v variantSpec) int {
+	bin := os.Getenv(v.binEnv)
 	if bin == "" {
-		why := os.Getenv("VERIF_386_ERR")
+		why := os.Getenv(v.errEnv)
 		if why == "" {
-			why = "no 386 binary provided (VERIF_386_BIN unset)"
+			why = "no binary provided (" + v.binEnv + " unset)"
 		}
-		c.Set("goarch_386_pass", "not run: "+why)
+		c.Set(v.key+"_pass", "not run: "+why)
 		return 0
 	}
-	tmp, err := os.MkdirTemp(out, ".word32-"+id+"-")
+	tmp, err := os.MkdirTemp(out, ".variant-"+v.suffix+"-"+id+"-")
 	if err != nil {
-		c.Set("goarch_386_pass", "not run: "+err.Error())
+		c.Set(v.key+"_pass", "not run: "+err.Error())
 		return 0
 	}
 	defer os.RemoveAll(tmp)
 	cmd := exec.Command(bin, "-prop", id, "-tier", "quick", "-root", root, "-out", tmp)
 	var env []string
 	for _, e := range os.Environ() {
-		// helper binaries of the 64-bit run are not handed down
-		if strings.HasPrefix(e, "VERIF_386_BIN=") || strings.HasPrefix(e, "VERIF_DEBUG_BIN=") || strings.HasPrefix(e, "VERIF_SCHED_BIN=") || strings.HasPrefix(e, "VERIF_RACE_BIN=") {
+		// helper binaries of the main run are not handed down
+		if strings.HasPrefix(e, "VERIF_386_BIN=") || strings.HasPrefix(e, "VERIF_TAGDEBUG_BIN=") || strings.HasPrefix(e, "VERIF_DEBUG_BIN=") || strings.HasPrefix(e, "VERIF_SCHED_BIN=") || strings.HasPrefix(e, "VERIF_RACE_BIN=") || strings.HasPrefix(e, "VERIF_VARIANT=") {
 			continue
 		}
 		env = append(env, e)
 	}
-	cmd.Env = env
+	cmd.Env = append(env, "VERIF_VARIANT="+v.variant)
 	t0 := time.Now()
 	outb, runErr := cmd.CombinedOutput()
 	code := 0
@@ -273,20 +318,20 @@ func word32Pass(c *Ctx, p *Property, id, root, out string) int {
 		json.Unmarshal(b, &ev)
 	}
 	if code != 0 && code != 1 || ev.PropertyID != id {
-		// the 32-bit run itself broke (an internal error of the harness, a crash): say so, loudly,
+		// the variant run itself broke (an internal error of the harness, a crash): say so, loudly,
 		// but do not turn it into a verdict about the library
-		fmt.Fprintf(os.Stderr, "vcheck: the GOARCH=386 pass of %s did not complete (exit %d): %s\n", id, code, clip(string(outb), 2000))
-		c.Set("goarch_386_pass", fmt.Sprintf("did not complete (exit %d): %s", code, clip(string(outb), 300)))
-		c.Cap("the GOARCH=386 pass did not complete")
+		fmt.Fprintf(os.Stderr, "vcheck: the %s pass of %s did not complete (exit %d): %s\n", v.variant, id, code, clip(string(outb), 2000))
+		c.Set(v.key+"_pass", fmt.Sprintf("did not complete (exit %d): %s", code, clip(string(outb), 300)))
+		c.Cap("the " + v.variant + " pass did not complete")
 		return 0
 	}
-	c.Set("goarch_386_pass", "quick tier of this check re-run as a GOARCH=386 binary (32-bit int, uint, uintptr)")
-	for _, k := range []string{"evaluations", "distinct_nontrivial", "exhaustive", "mismatches_seen"} {
-		if v, ok := ev.Coverage[k]; ok {
-			c.Set("goarch_386_"+k, v)
+	c.Set(v.key+"_pass", v.what)
+	for _, k := range []string{"evaluations", "distinct_nontrivial", "exhaustive", "mismatches_seen", "domain"} {
+		if x, ok := ev.Coverage[k]; ok {
+			c.Set(v.key+"_"+k, x)
 		}
 	}
-	c.Set("goarch_386_wall_s", time.Since(t0).Seconds())
+	c.Set(v.key+"_wall_s", time.Since(t0).Seconds())
 	// violations: re-home the replay files, marked with the build configuration they need
 	files, _ := filepath.Glob(filepath.Join(tmp, "replays", "*.json"))
 	sort.Strings(files)
@@ -300,28 +345,30 @@ func word32Pass(c *Ctx, p *Property, id, root, out string) int {
 		if json.Unmarshal(b, &m) != nil {
 			continue
 		}
-		dst := filepath.Join(out, "replays", strings.TrimSuffix(filepath.Base(f), ".json")+"-386.json")
-		m["goarch"] = "386"
+		dst := filepath.Join(out, "replays", strings.TrimSuffix(filepath.Base(f), ".json")+"-"+v.suffix+".json")
+		m[v.mark] = v.markVal
 		m["how_to_replay"] = []string{
-			"/verif/check.sh replay " + dst + "   (builds the 32-bit binary)",
-			"cd /verif/harness && GOARCH=386 CGO_ENABLED=0 VERIF_REPLAY=" + dst + " go test -count=1 -run TestReplay ./replaytest/",
+			"/verif/check.sh replay " + dst + "   (builds the binary of that configuration)",
+			"cd /verif/harness && " + v.goTest + "VERIF_REPLAY=" + dst + " go test " + v.goTestTags + "-count=1 -run TestReplay ./replaytest/",
 		}
 		nb, _ := json.MarshalIndent(m, "", " ")
 		if os.WriteFile(dst, append(nb, '\n'), 0644) != nil {
 			continue
 		}
 		n++
+		printMu.Lock()
 		fmt.Printf("VIOLATION property=%s replay=%s\n", id, dst)
-		fmt.Printf("  on GOARCH=386 (32-bit int/uint): %v %s\n  got:  %s\n  want: %s\n", m["kind"], clip(fmt.Sprint(string(mustJSON(m["case"]))), 400), clip(fmt.Sprint(m["got"]), 400), clip(fmt.Sprint(m["want"]), 400))
+		fmt.Printf("  %s: %v %s\n  got:  %s\n  want: %s\n", v.label, m["kind"], clip(fmt.Sprint(string(mustJSON(m["case"]))), 400), clip(fmt.Sprint(m["got"]), 400), clip(fmt.Sprint(m["want"]), 400))
+		printMu.Unlock()
 	}
 	if code == 1 && n == 0 {
-		fmt.Fprintf(os.Stderr, "vcheck: the GOARCH=386 pass of %s reported a violation but left no replay file: %s\n", id, clip(string(outb), 2000))
-		c.Cap("the GOARCH=386 pass reported a violation without a replay file")
+		fmt.Fprintf(os.Stderr, "vcheck: the %s pass of %s reported a violation but left no replay file: %s\n", v.variant, id, clip(string(outb), 2000))
+		c.Cap("the " + v.variant + " pass reported a violation without a replay file")
 	}
-	// known findings matched by the 32-bit run are printed by it
+	// known findings matched by the variant run are printed by it
 	for _, l := range strings.Split(string(outb), "\n") {
 		if strings.HasPrefix(l, "KNOWN-FINDING:") {
-			fmt.Println(l + " [GOARCH=386]")
+			fmt.Println(l + " [" + v.variant + "]")
 		}
 	}
 	return n
